@@ -67,6 +67,17 @@ def h_submit(tier):
     ]
 
 
+def h_races(tier, user=True, double=True):
+    obs = []
+    if user:
+        obs.append(_ob("H-submit/user-race", H, "h_submit", dict(shapes=["indep2"], bss=[2], maxns=[None], fails=False, cancel_flags=False,
+                                                                 user_round=1), **_HO))
+    if double:
+        obs.append(_ob("H-submit/double-recovery", H, "h_submit", dict(shapes=["indep2", "indep3"], bss=[1], maxns=[1, 2], fails=False,
+                                                                       cancel_flags=False, double_recovery=True), **_HO))
+    return obs
+
+
 def h_dry(tier):
     return [_ob("H-submit/dry-run", H, "h_submit", dict(shapes=["chain3", "indep2", "join3"], bss=[1, 3], maxns=[None, 1],
                                                         dry_run=True, fails=False), **_HO)]
@@ -120,7 +131,7 @@ KC = "harness.k_config"
 
 def c17(tier):
     return [
-        _ob("K-roundtrip", KC, "k_roundtrip", dict(N=3, G=2 if tier == "quick" else 3)),
+        _ob("K-roundtrip", KC, "k_roundtrip", dict(N=2 if tier == "quick" else 3, G=2 if tier == "quick" else 3)),
         _ob("K-config", KC, "k_config", dict(N=2, G=2), **_HO),
         _ob("K-runtime", KC, "k_runtime", dict(N=2 if tier == "quick" else 3, G=2)),
     ]
@@ -201,7 +212,8 @@ def c08(tier):
 
 def c10(tier):
     q = [_ob("K-version", "harness.h_cluster", "k_version", dict(vmax=5)),
-         _ob("H-cluster", "harness.h_cluster", "h_cluster", dict(handles=2, steps=4), **_HO)]
+         _ob("H-cluster", "harness.h_cluster", "h_cluster", dict(handles=2, steps=4), **_HO),
+         _ob("H-role", "harness.h_role", "h_role", {}, **_HO)] + h_races(tier, user=False)
     if tier == "quick":
         return q
     return q + [_ob("H-cluster/3", "harness.h_cluster", "h_cluster", dict(handles=3, steps=4), **_HO)]
@@ -217,12 +229,12 @@ def c11(tier):
 
 def obligations(prop, tier):
     table = {
-        "C01": lambda t: k_batch(t, deep=True) + k_queue(t) + h_submit(t),
+        "C01": lambda t: k_batch(t, deep=True) + k_queue(t) + h_submit(t) + h_races(t, user=(t == "thorough")),
         "C02": lambda t: k_batch(t) + k_queue(t) + k_collect(t) + h_submit(t),
-        "C03": lambda t: h_submit(t) + k_tally(t),
+        "C03": lambda t: h_submit(t) + h_races(t, double=(t == "thorough")) + k_tally(t),
         "C04": lambda t: k_queue(t) + k_collect(t) + h_submit(t),
-        "C05": lambda t: k_batch(t) + h_submit(t),
-        "C06": lambda t: k_batch(t) + k_queue(t) + h_submit(t),
+        "C05": lambda t: k_batch(t) + h_submit(t) + h_races(t),
+        "C06": lambda t: k_batch(t) + k_queue(t) + h_submit(t) + h_races(t, user=False),
         "C07": lambda t: k_batch(t, deep=True) + h_submit(t) + h_dry(t),
         "C08": c08,
         "C09": lambda t: k_collect(t) + h_submit(t),
